@@ -552,14 +552,13 @@ theorem rawGet_tM {σ : State N} {a : String} (hac : bytesOf "cache" ≠ bytesOf
   rw [rawGet_of h, rawGet_of h]
   simp [rawGetEntries, rawEq, strVal, hne]
 
-theorem leaf_sound (M a : String) (B : Block) (hB : NoRefB (D1 M) B) (hac : bytesOf "cache" ≠ bytesOf a)
-    (hMv : M ≠ "v") (hMI : M ≠ implName)
-    (hMr : M ≠ "__ref_require" ∧ M ≠ "__ref_modules" ∧ M ≠ "__ref_loaded")
-    {Q : QRel} (hq : QRefl Q) : SoundE Q (bcx M a B B) (D1 M) (accessorCall M a) (refCall a) := by
+theorem leaf_sound (M a : String) (BL BR : Block) (hac : bytesOf "cache" ≠ bytesOf a)
+    (hMv : M ≠ "v") (hMI : M ≠ implName) {Q : QRel} :
+    SoundE Q (bcx M a BL BR) (D1 M) (accessorCall M a) (refCall a) := by
   intro N call ρ k env env' σ σ' β hp hs he
   have hcall : call = callClosure ρ k := hp.cf
   subst hcall
-  obtain ⟨LF, RF, CP⟩ : LFacts M a B β σ ∧ RFacts a B β σ' ∧ Coupled a β σ σ' := hs.inv
+  obtain ⟨LF, RF, CP⟩ : LFacts M a BL β σ ∧ RFacts a BR β σ' ∧ Coupled a β σ σ' := hs.inv
   have hlM : lookupVar env M σ = .tbl 3 := by
     rw [he.lookupVarL (n := M) (c := 0) (by simp [D1]) (by simp [bcx, lookupAssoc]) σ]; exact getCell_of LF.c0
   have hlR : lookupVar env' "__ref_require" σ' = .fn 0 := by
@@ -584,7 +583,7 @@ theorem leaf_sound (M a : String) (B : Block) (hB : NoRefB (D1 M) B) (hac : byte
         simp [envLI, lookupAssoc, this]
       rcases CP with ⟨e4, e3⟩ | ⟨tb, tb', v, v', h1, h2, h3, h4, h5, h6, h7, h8, h9⟩
       · -- MISS: both caches are empty
-        have hI0 : LFacts M a B β σ ∧ RFacts a B β σ' ∧ Coupled a β σ σ' := hs.inv
+        have hI0 : LFacts M a BL β σ ∧ RFacts a BR β σ' ∧ Coupled a β σ σ' := hs.inv
         have hIloc : lookupAssoc implName (envLI M) = some 1 := by simp [envLI, lookupAssoc]
         have hboxnil : σ.rawGet 4 (strVal a) = .nil := by rw [rawGet_of e4]; rfl
         have hmt4 : (σ.getTable 4).mt = none := by rw [getTable_of e4]
@@ -601,7 +600,7 @@ theorem leaf_sound (M a : String) (B : Block) (hB : NoRefB (D1 M) B) (hac : byte
           simp only [getTable_allocCell]; rw [getTable_of e3]
         have hmod' : (σ'.allocCell (.str (strToBytes a))).2.rawGet 4 (.str (strToBytes a)) = .fn 1 := by
           simp only [rawGet_allocCell]; rw [rawGet_of RF.tMods]; simp [rawGetEntries, rawEq, strVal, strToBytes]
-        have hclo' : (σ'.allocCell (.str (strToBytes a))).2.closures[1]? = some ⟨.mk [] false none none [] [] B, envR3, []⟩ := by
+        have hclo' : (σ'.allocCell (.str (strToBytes a))).2.closures[1]? = some ⟨.mk [] false none none [] [] BR, envR3, []⟩ := by
           simpa using RF.f1
         have hR' := callClosure_req ρ (m + 1) (.str (strToBytes a)) σ'
         simp only [reqClosure] at hR'
@@ -613,24 +612,25 @@ theorem leaf_sound (M a : String) (B : Block) (hB : NoRefB (D1 M) B) (hac : byte
         obtain ⟨β4, l4, s4, m4⟩ := pinCellR s3 (.nil)
         obtain ⟨β5, l5, s5, m5⟩ := pinTableR s4 ⟨[], none⟩
         have hle5 : β.le β5 := Inj.le_trans l1 (Inj.le_trans l2 (Inj.le_trans l3 (Inj.le_trans l4 l5)))
-        -- the two bodies
-        have hp' : POK Q (bcx M a B B) (callClosure ρ m) ρ m :=
-          ⟨rfl, hp.lower m (by omega), hp.flat, fun j hj => hp.lower j (by omega)⟩
-        have hbody := (reflB hq B (D1 M) hB).2 N (callClosure ρ m) ρ m ⟨envLI M, []⟩ ⟨envR3, []⟩ _ _ β5 hp' s5
-          (envOK_body hMI hMr)
-        have hcr : HeapU.RRel Q (bcx M a B B) β5 AVs
-            (callClosure ρ (m + 1) (implClosure B (envLI M)) []
+        -- the two module functions are related closures: call them through the handler of their level
+        have hI5 : LFacts M a BL β5 _ ∧ RFacts a BR β5 _ ∧ Coupled a β5 _ _ := s5.inv
+        have hCR : CRel Q (bcx M a BL BR) β5 (implClosure BL (envLI M)) ⟨.mk [] false none none [] [] BR, envR3, []⟩ := by
+          obtain ⟨c, c', h1, h2, hc⟩ := s5.clo hI5.1.fr
+          rw [hI5.1.f0] at h1; rw [hI5.2.1.f1] at h2
+          cases h1; cases h2; exact hc
+        have hcr : HeapU.RRel Q (bcx M a BL BR) β5 AVs
+            (callClosure ρ (m + 1) (implClosure BL (envLI M)) []
               ((σ.allocCell .nil).2.allocTable { entries := [], mt := none }).2)
-            (callClosure ρ (m + 1) ⟨.mk [] false none none [] [] B, envR3, []⟩ []
+            (callClosure ρ (m + 1) ⟨.mk [] false none none [] [] BR, envR3, []⟩ []
               (((σ'.allocCell (.str (strToBytes a))).2.allocCell .nil).2.allocTable { entries := [], mt := none }).2) :=
-          RRel.retWrap hbody
-        have hLfail := cached_miss_fail (callClosure ρ (m + 1)) ρ m M a ⟨envLI M, []⟩ 0 3 4 1 0 (implClosure B (envLI M)) σ
+          hp.lower (m + 1) (by omega) β5 _ _ [] [] _ _ hCR .nil s5
+        have hLfail := cached_miss_fail (callClosure ρ (m + 1)) ρ m M a ⟨envLI M, []⟩ 0 3 4 1 0 (implClosure BL (envLI M)) σ
           hMloc hIloc (getCell_of LF.c0) hcache hboxnil hmt4 (getCell_of LF.c1) LF.f0
         have hRfail := reqBody_miss_fail (callClosure ρ (m + 1)) ρ m (strToBytes a) σ'.cells.length 3 4 1
-          ⟨.mk [] false none none [] [] B, envR3, []⟩ (σ'.allocCell (.str (strToBytes a))).2 hn h0' h1' hbox' hmt' hmod' hclo'
-        generalize hcL : callClosure ρ (m + 1) (implClosure B (envLI M)) []
+          ⟨.mk [] false none none [] [] BR, envR3, []⟩ (σ'.allocCell (.str (strToBytes a))).2 hn h0' h1' hbox' hmt' hmod' hclo'
+        generalize hcL : callClosure ρ (m + 1) (implClosure BL (envLI M)) []
               ((σ.allocCell .nil).2.allocTable { entries := [], mt := none }).2 = cL at hcr hLfail
-        generalize hcR : callClosure ρ (m + 1) ⟨.mk [] false none none [] [] B, envR3, []⟩ []
+        generalize hcR : callClosure ρ (m + 1) ⟨.mk [] false none none [] [] BR, envR3, []⟩ []
               (((σ'.allocCell (.str (strToBytes a))).2.allocCell .nil).2.allocTable { entries := [], mt := none }).2 = cR
               at hcr hRfail
         cases cL with
@@ -650,7 +650,7 @@ theorem leaf_sound (M a : String) (B : Block) (hB : NoRefB (D1 M) B) (hac : byte
           | err _ _ => simp [HeapU.RRel] at hcr
           | ok vs' σb' =>
             obtain ⟨β6, l6, hvs, s6⟩ := hcr
-            have hI6 : LFacts M a B β6 σb ∧ RFacts a B β6 σb' ∧ Coupled a β6 σb σb' := s6.inv
+            have hI6 : LFacts M a BL β6 σb ∧ RFacts a BR β6 σb' ∧ Coupled a β6 σb σb' := s6.inv
             have hlt := cache_lt hI0
             have ecb : (σ'.allocCell (.str (strToBytes a))).2.cells.length = σ'.cells.length + 1 := by
               simp [State.allocCell]
@@ -684,7 +684,7 @@ theorem leaf_sound (M a : String) (B : Block) (hB : NoRefB (D1 M) B) (hac : byte
               · exact ⟨_, h, by simp [rawSetEntries, strVal, strToBytes], rfl⟩
               · exact ⟨_, h, by simp [rawSetEntries, rawEq, strVal, strToBytes], rfl⟩
             -- both sides run to the end
-            have hLm := cached_miss' (callClosure ρ (m + 1)) ρ m M a ⟨envLI M, []⟩ 0 3 4 1 0 (implClosure B (envLI M)) vs σ σb
+            have hLm := cached_miss' (callClosure ρ (m + 1)) ρ m M a ⟨envLI M, []⟩ 0 3 4 1 0 (implClosure BL (envLI M)) vs σ σb
               hMv hMloc hIloc (getCell_of LF.c0) hcache hboxnil hmt4 (getCell_of LF.c1) LF.f0 hcL
               (lt_of_getElem? pCL.1) (lt_of_getElem? pTL.1) (getTable_of pTL.1) (getCell_of hI6.1.c0)
               (rawGet_tM hac hI6.1.tM).1 (by rw [getTable_of hT4]; exact hT4m) hlt.1
@@ -738,7 +738,7 @@ theorem leaf_sound (M a : String) (B : Block) (hB : NoRefB (D1 M) B) (hac : byte
             obtain ⟨fLc, fLf, fLt⟩ := afterMiss_facts σb σ.cells.length σ.tables.length 4 a (first vs) T4 (by omega) pTL.1 hT4
             obtain ⟨fRc, fRf, fRt⟩ := afterReqMiss_facts σb' (σ'.allocCell (.str (strToBytes a))).2.cells.length σ'.tables.length 3
               (strToBytes a) (first vs') T3 (by omega) pTR.1 hT3
-            have hIf : (bcx M a B B).I N ((((β6.repinTL σ.tables.length
+            have hIf : (bcx M a BL BR).I N ((((β6.repinTL σ.tables.length
                 { (σb.getTable σ.tables.length) with
                   entries := rawSetEntries (strVal "c") (first vs) (σb.getTable σ.tables.length).entries }).repinCL
                 σ.cells.length (.tbl σ.tables.length)).repinT σ'.tables.length
@@ -747,7 +747,7 @@ theorem leaf_sound (M a : String) (B : Block) (hB : NoRefB (D1 M) B) (hac : byte
                 (σ'.allocCell (.str (strToBytes a))).2.cells.length (.tbl σ'.tables.length))
                 (afterMiss σb σ.cells.length σ.tables.length 4 a (first vs))
                 (afterReqMiss σb' (σ'.allocCell (.str (strToBytes a))).2.cells.length σ'.tables.length 3 (strToBytes a) (first vs')) := by
-              refine ⟨⟨?_, ?_, ?_, ?_, ?_, hI6.1.pc, hI6.1.pt, hnpL⟩, ⟨?_, ?_, ?_, ?_, ?_, ?_, hI6.2.1.pc, hI6.2.1.pt, hnpR⟩,
+              refine ⟨⟨?_, ?_, ?_, ?_, ?_, hI6.1.pc, hI6.1.pt, hnpL, hI6.1.fr⟩, ⟨?_, ?_, ?_, ?_, ?_, ?_, hI6.2.1.pc, hI6.2.1.pt, hnpR⟩,
                 .inr ⟨σ.tables.length, σ'.tables.length, first vs, first vs', ?_, ?_, pTL.2.1, pTL.2.2, ?_, ?_, pTR.2.1, pTR.2.2, ?_⟩⟩
               · rw [fLc, listSet_get_ne _ _ _ _ (by omega)]; exact hI6.1.c0
               · rw [fLc, listSet_get_ne _ _ _ _ (by omega)]; exact hI6.1.c1
